@@ -314,14 +314,18 @@ example :
   fragmentation_independent exampleTokenizer exampleTokenizer_incremental {} rfl 64 ⟨1000, 0⟩ (by decide) freshTerm
     _ _ (by decide)
 
-/-! #### the clause in full, and why it fails for the unchanged `tickit_term_input_push_bytes` -/
+/-! #### the clause in full: it fails for the unchanged `tickit_term_input_push_bytes`, holds for the repaired one -/
 
-/-- Fragmentation independence without the proviso that the whole fits one `termkey_push_bytes`: every
-    piece is accepted when pushed on its own, the whole is pushed with one call. -/
+/-- Fragmentation independence without the proviso that the whole fits one `termkey_push_bytes`: for every
+    tokenizer obeying `Incremental` and `PartialPush`, every cutting of a stream into non-empty pieces
+    gives the same observation as the whole.  `runChunks … .isSome` says that a hand-over loop would never
+    stall (the tokenizer never refuses everything while bytes are left: no unfinished sequence as long
+    as its whole buffer) — for the unchanged code a proviso without effect, for the repaired code the
+    condition under which it hands over every byte. -/
 def FragmentationFull (cfg : Cfg) : Prop :=
-  ∀ (T : Tokenizer), T.Incremental → ∀ (fuel : Nat) (now : TimeVal), 0 ≤ now.sec →
+  ∀ (T : Tokenizer), T.Incremental → T.PartialPush → ∀ (fuel : Nat) (now : TimeVal), 0 ≤ now.sec →
     ∀ (tt : Term T) (p : List UInt8) (ps : List (List UInt8)), (∀ q ∈ p :: ps, q ≠ []) →
-      AcceptedRun T tt.tk p ps →
+      (runChunks T tt.tk [(p :: ps).flatten]).isSome → (runChunks T tt.tk (p :: ps)).isSome →
       (pushPieces T cfg fuel now tt (p :: ps)).map pushObs =
         (inputPushBytes T cfg fuel now tt (p :: ps).flatten).map pushObs
 
@@ -329,9 +333,9 @@ def FragmentationFull (cfg : Cfg) : Prop :=
     arrive; `abcdef` pushed whole loses `ef`. -/
 theorem fragmentation_counterexample (cfg : Cfg) (hc : cfg.pushLoops = false) : ¬ FragmentationFull cfg := by
   intro hfull
-  have h := hfull (Csi.lexer.tokenizer 4) (Csi.lexer.incremental 4) 64 ⟨1000, 0⟩ (by decide)
+  have h := hfull (Csi.lexer.tokenizer 4) (Csi.lexer.incremental 4) (Csi.lexer.partialPush 4) 64 ⟨1000, 0⟩ (by decide)
     { tk := [], held := 0, timeoutAt := ⟨-1, 0⟩ } [0x61, 0x62, 0x63] [[0x64, 0x65, 0x66]] (by decide)
-    (by decide)
+    (by decide) (by decide)
   have hp : ∀ cfg' : Cfg, cfg'.pushLoops = false →
       (pushPieces (Csi.lexer.tokenizer 4) cfg' 64 ⟨1000, 0⟩ { tk := [], held := 0, timeoutAt := ⟨-1, 0⟩ }
         [[0x61, 0x62, 0x63], [0x64, 0x65, 0x66]]).map (fun r => r.2.length) = .ok 6 := by
@@ -366,12 +370,78 @@ theorem fragmentation_counterexample (cfg : Cfg) (hc : cfg.pushLoops = false) : 
   cases h'
 
 /-- Under the hypothesis that excludes exactly the trigger — the whole is accepted by one
-    `termkey_push_bytes` — the clause holds (this is `fragmentation_independent`). -/
+    `termkey_push_bytes` — the clause holds for the unchanged code (this is `fragmentation_independent`). -/
 theorem fragmentation_partial (cfg : Cfg) (hc : cfg.pushLoops = false) (T : Tokenizer) (hI : T.Incremental)
     (fuel : Nat) (now : TimeVal) (hnow : 0 ≤ now.sec) (tt : Term T) (p : List UInt8) (ps : List (List UInt8))
     (hwhole : T.Accepts tt.tk (p :: ps).flatten) :
     (pushPieces T cfg fuel now tt (p :: ps)).map pushObs =
       (inputPushBytes T cfg fuel now tt (p :: ps).flatten).map pushObs :=
   fragmentation_independent T hI cfg hc fuel now hnow tt p ps hwhole
+
+/-- With fixes/C20_push_bytes_short_count.patch (`cfg.pushLoops = true`: the push hands over what
+    `termkey_push_bytes` did not accept, after draining) the clause holds in full. -/
+theorem fragmentation_fixed (cfg : Cfg) (hc : cfg.pushLoops = true) : FragmentationFull cfg := by
+  intro T hI hP fuel now hnow tt p ps hne hw hp
+  -- a single looped push is `pushPieces` of one piece
+  have hsingle : inputPushBytes T cfg fuel now tt (p :: ps).flatten =
+      pushPieces T cfg fuel now tt [(p :: ps).flatten] := by
+    simp only [pushPieces]
+    cases inputPushBytes T cfg fuel now tt (p :: ps).flatten <;> simp
+  rw [hsingle]
+  cases hcw : runChunks T tt.tk [(p :: ps).flatten] with
+  | none => rw [hcw] at hw; cases hw
+  | some rw' =>
+    cases hcp : runChunks T tt.tk (p :: ps) with
+    | none => rw [hcp] at hp; cases hp
+    | some rp =>
+      obtain ⟨hfw, hnw, hnnw, haw, _⟩ := runChunks_spec T hP _ tt.tk rw'.1 rw'.2 (by rw [hcw])
+      obtain ⟨hfp, hnp, hnnp, hap, _⟩ := runChunks_spec T hP _ tt.tk rp.1 rp.2 (by rw [hcp])
+      rw [pushPieces_loop_eq T hP cfg hc fuel now [(p :: ps).flatten] tt rw'.1 rw'.2 (by rw [hcw]),
+        pushPieces_loop_eq T hP cfg hc fuel now (p :: ps) tt rp.1 rp.2 (by rw [hcp])]
+      have hflatne : (p :: ps).flatten ≠ [] := by
+        simp only [List.flatten_cons]
+        intro h0
+        exact hne p (by simp) (List.append_eq_nil_iff.1 h0).1
+      have hwne : ∀ c ∈ rw'.1, c ≠ [] := hnw (by
+        intro q hq
+        simp only [List.mem_singleton] at hq
+        subst hq; exact hflatne)
+      have hpne : ∀ c ∈ rp.1, c ≠ [] := hnp hne
+      cases hcs : rw'.1 with
+      | nil => exact absurd hcs (hnnw (by simp))
+      | cons c cs =>
+        cases hds : rp.1 with
+        | nil => exact absurd hds (hnnp (by simp))
+        | cons d ds =>
+          rw [hcs] at hfw hwne haw
+          rw [hds] at hfp hpne hap
+          rw [pushPiecesOnce_obs T cfg fuel now hnow cs c tt, pushPiecesOnce_obs T cfg fuel now hnow ds d tt,
+            chunkings_agree T hI _ tt.tk d ds c cs (Nat.lt_succ_self _)
+              (by rw [hfp, hfw]; simp) hpne hwne
+              ((acceptedRun_iff T ds tt.tk d).2 hap) ((acceptedRun_iff T cs tt.tk c).2 haw)]
+
+/-- What the working tree does (regenerated on every run). -/
+theorem fragmentation_source : FragmentationFull sourceCfg ↔ Gen.InputXlate.pushLoops = true := by
+  constructor
+  · intro hfull
+    cases hd : Gen.InputXlate.pushLoops
+    · exact absurd hfull (fragmentation_counterexample sourceCfg hd)
+    · rfl
+  · exact fun h => fragmentation_fixed sourceCfg h
+
+/-- The hypotheses of `FragmentationFull` are inhabited: the example tokenizer obeys both laws, and a
+    300-byte stream of text (more than its 256-byte buffer) pushed whole or in two halves never stalls. -/
+example : exampleTokenizer.Incremental ∧ exampleTokenizer.PartialPush ∧
+    (runChunks exampleTokenizer freshTerm.tk [List.replicate 300 0x61]).isSome = true ∧
+    (runChunks exampleTokenizer freshTerm.tk [List.replicate 150 0x61, List.replicate 150 0x61]).isSome = true :=
+  ⟨exampleTokenizer_incremental, Csi.lexer.partialPush 256, by decide +kernel, by decide +kernel⟩
+
+/-- … and there the repaired push delivers all 300 events where the unchanged one delivers 256. -/
+example :
+    (inputPushBytes exampleTokenizer { pushLoops := true } 64 ⟨1000, 0⟩ freshTerm (List.replicate 300 0x61)).map
+      (fun r => r.2.length) = .ok 300 ∧
+    (inputPushBytes exampleTokenizer { pushLoops := false } 64 ⟨1000, 0⟩ freshTerm (List.replicate 300 0x61)).map
+      (fun r => r.2.length) = .ok 256 := by
+  constructor <;> decide +kernel
 
 end Tickit.Props.C20
